@@ -82,6 +82,12 @@ def ptfs_stage(prop, cases, name="native", kind="native", **kw):
     return d
 
 
+def c06_stages(tier):
+    n = 2_400 if tier == "quick" else 100_000
+    return [ptfs_stage("C06", n, timeout=2400, crash_is_violation=True),
+            vfsx_stage("C06", 1_500 if tier == "quick" else 60_000, name="vfs-scripted-backends", timeout=2400, core=False)]
+
+
 def c08_stages(tier):
     return [ptfs_stage("C08", 2_000 if tier == "quick" else 120_000, timeout=2400, crash_is_violation=True)]
 
@@ -218,6 +224,24 @@ PROPS = {
         "rule": "case = one history (2-9 steps, optionally after a 10-260 cycle allocator burst); evaluations = save/restore points; distinct = (format, fresh-Vfs "
                 "kind, initialised?, global mapping?, number of mounts, step kind).",
         "assumptions": ["twin NumFs backends are deterministic functions of their id"],
+    },
+    "C06": {
+        "level": "exploration",
+        "stages": c06_stages,
+        "floor": 1000,
+        "technique": "runtime monitoring: sentinel-tree snapshots around the export root, reply-attribute and data-token monitors, adversarial-name oracle; "
+                     "standalone and VFS-fronted passthrough, plus backend-log emptiness for rejected names with scripted backends behind the VFS",
+        "level_text": "An export directory sits inside a sentinel tree (siblings, a parent-level secret file with a random token, targets of absolute and relative "
+                      "symlinks placed in the export). Hostile raw requests (lookups/creates/mkdir/mknod/symlink/link/unlink/rmdir/rename(2) with names '.', "
+                      "'..', 'a/b', '/abs', '../x', 'x/', './x', '..\\0junk'; open/read/write/setattr/xattr/readlink on inodes of pre-existing and freshly created "
+                      "symlinks pointing outside; hard links to them) run against a standalone passthrough and a passthrough mounted in a VFS (at / and at a "
+                      "sub-path). After every request the sentinel tree (content, mode, owner, mtime, ctime, names) must be unchanged, no reply may carry "
+                      "the host inode of a sentinel object or the token, '..' at the root must give the root, rejected names must answer EINVAL and leave "
+                      "the export unchanged. A second stage drives the same bad names through the VFS over logging backends and requires empty backend logs.",
+        "level_note": "With the VFS in front attr.ino is the VFS inode number, so the host-inode check applies to the standalone runs; access times are excluded "
+                      "(the snapshot itself reads the files).",
+        "rule": "evaluations = requests; distinct = (front, operation, rejected-name?, errno).",
+        "assumptions": ["ext4 scratch directory, running as root"],
     },
     "C08": {
         "level": "exploration",
